@@ -467,6 +467,16 @@ def pout(x):
 
 
 def impl(case):
+    # checks/lib.py reads one JSON *object* per case: wrap bare lists / numbers
+    r = impl_(case)
+    return r if isinstance(r, dict) else {"v": r}
+
+
+def unwrap(io):
+    return io["v"] if isinstance(io, dict) and set(io) == {"v"} else io
+
+
+def impl_(case):
     e = _env()
     np, ops, fields, s = e["np"], e["ops"], e["fields"], e["s"]
     op = case["op"]
@@ -718,6 +728,7 @@ def check_spec(case, io, mode):
 def check_spec_(case, io, mode):
     if not in_regime(case):
         return None
+    io = unwrap(io)
     if isinstance(io, dict) and "err" in io:
         return f"raised {io['err']} ({io.get('msg', '')[:120]}) instead of returning the join values"
     op = case["op"]
@@ -827,6 +838,7 @@ def compare(case, io, mo, mode):
             return None
         return None if ierr == merr else f"impl err={ierr} ({io.get('msg', '')[:100] if isinstance(io, dict) else ''}) model err={merr}"
     m = mo["ok"]
+    io = unwrap(io)
     if case["op"] == "merge_inner":
         # pandas chooses the order of the pairs; the model lists them in (left, right) order: compare as multisets of rows
         def rows(o):
@@ -908,7 +920,7 @@ def _warm_up():
             [{"op": "get_index", "target": [1, 2], "fk": [2, 3], "form": "array"},
              {"op": "session_join", "dest_len": 3, "fkey": [0, 0, 1], "values": [5, 6], "form": "array"}]:
         try:
-            impl(c)
+            impl_(c)
         except Exception:   # noqa
             pass
 
